@@ -1,14 +1,370 @@
-//! Coverage-guided fuzzing entry points: the fuzzer's bytes drive the proptest
-//! strategy of a sub-check (PassThrough RNG), the sub-check's own oracle decides.
+//! Coverage-guided fuzzing entry points. A fuzz input is decoded by hand
+//! (arbitrary::Unstructured) into one structured case of a sub-check; the
+//! sub-check's own oracle (spec model, twin, certificate, ...) decides.
+//!
+//! (proptest's byte-driven PassThrough RNG cannot be used for this: every
+//! `prop_oneof!` forks the RNG for its lazily generated alternatives, which
+//! halves the remaining bytes each time, and rand 0.9's uniform sampler then
+//! spins forever on the all-zero stream of an exhausted PassThrough RNG.)
 
+use crate::gen::{Content, CtxSpec, ModeC};
+use crate::hist::Size;
 use crate::props;
 use crate::runner::{Classes, Tier};
+use arbitrary::Unstructured;
+use serde::Serialize;
+
+type R<T> = arbitrary::Result<T>;
+
+fn size(u: &mut Unstructured) -> R<Size> {
+    let d: i8 = *u.choose(&[0i8, 0, 1, -1, 63, 64, 65, -64])?;
+    Ok(match u.int_in_range(0u8..=9)? {
+        0 => Size::Zero,
+        1 => Size::Abs(u.int_in_range(0u32..=200)?),
+        2 => Size::Abs(u.int_in_range(0u32..=5000)?),
+        3 => Size::Abs(u.int_in_range(0u32..=70_000)?),
+        4 => Size::ToBlockEnd(d),
+        5 => Size::ToChunkEnd(d),
+        6 => Size::Pow2Chunks(u.int_in_range(0u8..=7)?, d),
+        7 => Size::ToPow2Boundary(u.int_in_range(0u8..=7)?, d),
+        8 => Size::SimdMultiple(u.int_in_range(0u8..=4)?, u.int_in_range(0u8..=3)?, d),
+        _ => Size::Abs(u.int_in_range(0u32..=1100)?),
+    })
+}
+
+fn content(u: &mut Unstructured) -> R<Content> {
+    Ok(Content { kind: *u.choose(&[3u8, 3, 0, 1, 2, 4])?, seed: u.arbitrary::<u16>()? as u64 })
+}
+
+fn ctx(u: &mut Unstructured, raw: bool) -> R<CtxSpec> {
+    let kind = if raw { u.int_in_range(0u8..=2)? } else { u.int_in_range(0u8..=1)? };
+    let len = *u.choose(&[0u16, 1, 5, 40, 80, 1024, 1100, 3000])?;
+    Ok(CtxSpec { kind, len, seed: u.arbitrary::<u16>()? as u64 })
+}
+
+fn mode(u: &mut Unstructured, with_ck: bool) -> R<ModeC> {
+    Ok(match u.int_in_range(0u8..=if with_ck { 3 } else { 2 })? {
+        0 => ModeC::Hash,
+        1 => ModeC::Keyed(u.arbitrary()?),
+        2 => ModeC::Derive(ctx(u, false)?),
+        _ => ModeC::DeriveCk(u.arbitrary()?),
+    })
+}
+
+fn position(u: &mut Unstructured) -> R<u64> {
+    Ok(match u.int_in_range(0u8..=5)? {
+        0 => u.int_in_range(0u64..=300)?,
+        1 => 64 * u.int_in_range(0u64..=40)? + u.int_in_range(0u64..=63)?,
+        2 => 64 * ((1u64 << 32) - 17 + u.int_in_range(0u64..=34)?) + u.int_in_range(0u64..=63)?,
+        3 => u64::MAX - u.int_in_range(0u64..=70_000)?,
+        4 => 64 * ((1u64 << 33) - 17 + u.int_in_range(0u64..=34)?) + u.int_in_range(0u64..=63)?,
+        _ => u.arbitrary()?,
+    })
+}
+
+fn counter(u: &mut Unstructured) -> R<u64> {
+    Ok(match u.int_in_range(0u8..=6)? {
+        0 => u.int_in_range(0u64..=2)?,
+        1 => (1u64 << 32) - 45 + u.int_in_range(0u64..=90)?,
+        2 => ((u.int_in_range(1u64..=4)?) << 32) - u.int_in_range(0u64..=45)?,
+        3 => u64::MAX - u.int_in_range(0u64..=45)?,
+        4 => (1u64 << 54) - u.int_in_range(0u64..=40)?,
+        5 => u.arbitrary::<u32>()? as u64,
+        _ => u.arbitrary()?,
+    })
+}
+
+fn chunk_index(u: &mut Unstructured) -> R<u64> {
+    Ok(match u.int_in_range(0u8..=5)? {
+        0 => 0,
+        1 => u.int_in_range(1u64..=40)?,
+        2 => 1u64 << u.int_in_range(0u32..=53)?,
+        3 => core::cmp::min((2 * u.int_in_range(0u64..=500)? + 1) << u.int_in_range(0u32..=40)?, (1u64 << 54) - 1),
+        4 => (1u64 << 32) - 17 + u.int_in_range(0u64..=34)?,
+        _ => (1u64 << 54) - u.int_in_range(1u64..=40)?,
+    })
+}
+
+fn js<T: Serialize>(v: T) -> Option<serde_json::Value> {
+    serde_json::to_value(v).ok()
+}
+
+/// Decode a fuzz input into the JSON form of one case of (prop, sub).
+pub fn decode(prop: &str, sub: &str, data: &[u8]) -> Option<serde_json::Value> {
+    let mut u = Unstructured::new(data);
+    let u = &mut u;
+    match (prop, sub) {
+        ("C02", "histories") => {
+            use props::c02::{History, Op};
+            let mode = mode(u, true).ok()?;
+            let content = content(u).ok()?;
+            let mut ops = Vec::new();
+            while !u.is_empty() && ops.len() < 40 {
+                let op = match u.int_in_range(0u8..=15).ok()? {
+                    0..=4 => Op::Update(size(u).ok()?),
+                    5 => Op::Write(size(u).ok()?),
+                    6 => Op::WriteAll(size(u).ok()?),
+                    7 => Op::IoCopy(size(u).ok()?),
+                    8 => Op::UpdateReader(size(u).ok()?, u.arbitrary().ok()?),
+                    9 => Op::UpdateRayon(size(u).ok()?),
+                    10 => Op::Finalize,
+                    11 => Op::FinalizeXof(u.int_in_range(0u16..=300).ok()?),
+                    12 => Op::Count,
+                    13 => Op::Clone(u.int_in_range(0u8..=2).ok()?),
+                    14 => Op::Select(u.int_in_range(0u8..=2).ok()?),
+                    _ => Op::UpdateMmap(size(u).ok()?),
+                };
+                ops.push(op);
+            }
+            js(History { mode, content, budget: 128 * 1024, ops })
+        }
+        ("C03", "streams") => {
+            use props::c03::{Case, Op, RootSrc};
+            let root = if u.ratio(1u8, 6u8).ok()? {
+                RootSrc::Merge { mode: mode(u, true).ok()?, left: u.arbitrary().ok()?, right: u.arbitrary().ok()? }
+            } else {
+                let len = *u.choose(&[0usize, 1, 31, 32, 63, 64, 65, 127, 128, 1023, 1024, 1025, 2048, 2049, 3072, 4096, 5000, 20_000]).ok()?;
+                RootSrc::Input { mode: mode(u, true).ok()?, len, content: content(u).ok()? }
+            };
+            let mut ops = Vec::new();
+            while !u.is_empty() && ops.len() < 30 {
+                let n = match u.int_in_range(0u8..=3).ok()? {
+                    0 => 0,
+                    1 => u.int_in_range(1u32..=130).ok()?,
+                    2 => *u.choose(&[63u32, 64, 65, 127, 128, 129, 1023, 1024, 1025, 1088, 2048]).ok()?,
+                    _ => u.int_in_range(0u32..=3000).ok()?,
+                };
+                let op = match u.int_in_range(0u8..=12).ok()? {
+                    0..=3 => Op::Fill(n),
+                    4 => Op::Read(n),
+                    5 => Op::ReadExact(n),
+                    6 | 7 => Op::SetPosition(position(u).ok()?),
+                    8 => Op::SeekStart(position(u).ok()?),
+                    9 => Op::SeekCurrent(match u.int_in_range(0u8..=2).ok()? {
+                        0 => u.int_in_range(-200i64..=200).ok()?,
+                        1 => *u.choose(&[i64::MIN, i64::MIN + 1, -(1i64 << 38), 1i64 << 38, i64::MAX]).ok()?,
+                        _ => u.arbitrary().ok()?,
+                    }),
+                    10 => Op::SeekEnd(u.arbitrary().ok()?),
+                    11 => Op::Clone,
+                    _ => Op::Swap,
+                };
+                ops.push(op);
+            }
+            js(Case { root, ops })
+        }
+        ("C10", "reset-histories") => {
+            use props::c10::{Case, Op};
+            let mode = mode(u, true).ok()?;
+            let content = content(u).ok()?;
+            let mut ops = Vec::new();
+            while !u.is_empty() && ops.len() < 30 {
+                let op = match u.int_in_range(0u8..=13).ok()? {
+                    0 | 1 => Op::SetOffset(chunk_index(u).ok()?),
+                    2..=6 => Op::Update(size(u).ok()?),
+                    7 => Op::Finalize,
+                    8 => Op::FinalizeXof(u.int_in_range(0u16..=200).ok()?),
+                    9 => Op::FinalizeNonRoot,
+                    10 | 11 => Op::Reset,
+                    12 => Op::Clone,
+                    _ => Op::Swap,
+                };
+                ops.push(op);
+            }
+            js(Case { mode, content, budget: 96 * 1024, ops })
+        }
+        ("C09", "decompositions") => {
+            use props::c09::TreeCase;
+            let mode = mode(u, true).ok()?;
+            let k = u.int_in_range(1i64..=130).ok()?;
+            let delta = *u.choose(&[-1025i64, -1024, -65, -1, 0, 1, 64, 1023]).ok()?;
+            let len = core::cmp::max(1025, k * 1024 + delta) as usize;
+            let content = content(u).ok()?;
+            let nsplits = u.int_in_range(0usize..=30).ok()?;
+            let mut splits = Vec::new();
+            for _ in 0..nsplits {
+                splits.push(u.arbitrary::<bool>().ok()?);
+            }
+            let mut sizes = Vec::new();
+            for _ in 0..u.int_in_range(0usize..=5).ok()? {
+                sizes.push(size(u).ok()?);
+            }
+            js(TreeCase { mode, len, content, splits, sizes })
+        }
+        ("C05", "kernels") => {
+            use props::c05::KCase;
+            let cvs = |u: &mut Unstructured| -> R<[u32; 8]> {
+                Ok(match u.int_in_range(0u8..=3)? {
+                    0 => [0; 8],
+                    1 => [u32::MAX; 8],
+                    2 => b3spec::IV,
+                    _ => u.arbitrary()?,
+                })
+            };
+            let k = match u.int_in_range(0u8..=2).ok()? {
+                0 => KCase::Compress { cv: cvs(u).ok()?, block_kind: u.int_in_range(0u8..=3).ok()?, block_seed: u.arbitrary::<u16>().ok()? as u64, block_len: u.int_in_range(0u8..=64).ok()?, counter: counter(u).ok()?, flags: u.arbitrary().ok()?, align: u.int_in_range(0u8..=63).ok()? },
+                1 => KCase::HashMany {
+                    n: u.int_in_range(0u8..=35).ok()?,
+                    parents: u.arbitrary().ok()?,
+                    key: cvs(u).ok()?,
+                    counter: counter(u).ok()?,
+                    inc: u.ratio(7u8, 10u8).ok()?,
+                    flags: u.arbitrary().ok()?,
+                    fs: u.arbitrary().ok()?,
+                    fe: u.arbitrary().ok()?,
+                    seed: u.arbitrary::<u16>().ok()? as u64,
+                    align_seed: u.arbitrary::<u16>().ok()? as u64,
+                    out_align: u.int_in_range(0u8..=63).ok()?,
+                },
+                _ => KCase::XofMany { cv: cvs(u).ok()?, block_seed: u.arbitrary::<u16>().ok()? as u64, block_len: u.int_in_range(0u8..=64).ok()?, counter: counter(u).ok()?, flags: u.arbitrary().ok()?, n: u.int_in_range(1u8..=40).ok()?, out_align: u.int_in_range(0u8..=63).ok()? },
+            };
+            js(k)
+        }
+        #[cfg(feature = "cshim")]
+        ("C06", "c-api-histories") => {
+            use crate::levels::ALL_LEVELS;
+            use props::c06::{COp, Case, InitC};
+            let variant = u.int_in_range(0u8..=1).ok()?;
+            let av: Vec<_> = ALL_LEVELS.iter().copied().filter(|l| l.cpu_has()).collect();
+            let mask = *u.choose(&av).ok()?;
+            let init = match u.int_in_range(0u8..=3).ok()? {
+                0 => InitC::Plain,
+                1 => InitC::Keyed(u.arbitrary().ok()?),
+                2 => InitC::DeriveStr(ctx(u, false).ok()?),
+                _ => InitC::DeriveRaw(ctx(u, true).ok()?),
+            };
+            let content = content(u).ok()?;
+            let mut ops = Vec::new();
+            while !u.is_empty() && ops.len() < 30 {
+                let k = match u.int_in_range(0u8..=2).ok()? {
+                    0 => u.int_in_range(0u16..=130).ok()?,
+                    1 => *u.choose(&[0u16, 32, 63, 64, 65, 128, 1024, 1088]).ok()?,
+                    _ => u.int_in_range(0u16..=3000).ok()?,
+                };
+                let op = match u.int_in_range(0u8..=13).ok()? {
+                    0..=4 => COp::Update(size(u).ok()?),
+                    5 => COp::UpdateNull,
+                    6 | 7 => COp::Finalize(k),
+                    8..=10 => COp::FinalizeSeek(position(u).ok()?, k),
+                    11 => COp::Reset,
+                    12 => COp::Copy,
+                    _ => COp::Swap,
+                };
+                ops.push(op);
+            }
+            js(Case { variant, mask, init, content, budget: 96 * 1024, ops })
+        }
+        #[cfg(feature = "b3")]
+        ("C13", "arbitrary-text") => {
+            use props::c13::TextCase;
+            // the whole input is the line (lossy: the parser only ever sees &str)
+            js(TextCase::Raw(String::from_utf8_lossy(data).to_string()))
+        }
+        #[cfg(feature = "b3")]
+        ("C13", "round-trip") => {
+            use props::c13::{RtCase, SYMBOLS};
+            let tag = u.arbitrary().ok()?;
+            let term = u.int_in_range(0u8..=2).ok()?;
+            let hash: [u8; 32] = u.arbitrary().ok()?;
+            let mut path = Vec::new();
+            while !u.is_empty() && path.len() < 16 {
+                path.push(u.int_in_range(0u8..=(SYMBOLS.len() as u8 - 1)).ok()?);
+            }
+            if path.is_empty() {
+                path.push(0);
+            }
+            js(RtCase { path, tag, hash, term })
+        }
+        #[cfg(feature = "full")]
+        ("C14", "random") => {
+            use props::c14::Case;
+            if data.is_empty() {
+                return js(Case::HexInput(Vec::new()));
+            }
+            let (sel, rest) = (data[0], &data[1..]);
+            match sel % 4 {
+                0 | 1 => js(Case::HexInput(rest.to_vec())),
+                2 => js(Case::Slice(rest.to_vec())),
+                _ => {
+                    let mut a = [0u8; 32];
+                    let n = core::cmp::min(32, rest.len());
+                    a[..n].copy_from_slice(&rest[..n]);
+                    let mut b = a;
+                    if rest.len() > 33 {
+                        b[rest[32] as usize % 32] ^= rest[33];
+                    }
+                    js(Case::Pair(a.to_vec(), b.to_vec()))
+                }
+            }
+        }
+        #[cfg(feature = "full")]
+        ("C16", "trait-histories") => {
+            use props::c16::{Case, TOp};
+            let mode = mode(u, false).ok()?;
+            let trait_ctor = u.int_in_range(0u8..=2).ok()?;
+            let content = content(u).ok()?;
+            let mut ops = Vec::new();
+            while !u.is_empty() && ops.len() < 30 {
+                let n = u.int_in_range(0u16..=300).ok()?;
+                let g = u.arbitrary::<bool>().ok()?;
+                let op = match u.int_in_range(0u8..=38).ok()? {
+                    0..=3 => TOp::Update(size(u).ok()?),
+                    4 => TOp::Chain(size(u).ok()?),
+                    5 => TOp::DigestUpdate(size(u).ok()?),
+                    6 => TOp::DigestChain(size(u).ok()?),
+                    7 => TOp::MacUpdate(size(u).ok()?),
+                    8 => TOp::MacChain(size(u).ok()?),
+                    9 => TOp::DynUpdate(size(u).ok()?),
+                    10 => TOp::FinalizeFixed,
+                    11 => TOp::FinalizeInto,
+                    12 => TOp::FinalizeFixedReset,
+                    13 => TOp::FinalizeIntoReset,
+                    14 => TOp::Xof(n),
+                    15 => TOp::XofInto(n),
+                    16 => TOp::XofBoxed(n),
+                    17 => TOp::FinalizeBoxed(n),
+                    18 => TOp::XofReset(n),
+                    19 => TOp::XofResetInto(n),
+                    20 => TOp::FinalizeBoxedReset(n),
+                    21 => TOp::Reset,
+                    22 => TOp::DigestFinalize,
+                    23 => TOp::DigestFinalizeReset,
+                    24 => TOp::DigestFinalizeIntoReset,
+                    25 => TOp::DigestReset,
+                    26 => TOp::DynFinalizeReset,
+                    27 => TOp::DynFinalizeBoxed,
+                    28 => TOp::DynFinalizeIntoReset,
+                    29 => TOp::DynReset,
+                    30 => TOp::DynBoxClone,
+                    31 => TOp::MacFinalize,
+                    32 => TOp::MacFinalizeReset,
+                    33 => TOp::MacReset,
+                    34 => TOp::MacVerify(g),
+                    35 => TOp::MacVerifySlice(g),
+                    36 => TOp::MacVerifyReset(g),
+                    37 => TOp::MacVerifyTruncLeft(n as u8, g),
+                    _ => TOp::MacVerifyTruncRight(n as u8, g),
+                };
+                ops.push(op);
+            }
+            if ops.is_empty() {
+                ops.push(TOp::FinalizeFixed);
+            }
+            js(Case { mode, trait_ctor, content, budget: 64 * 1024, ops })
+        }
+        _ => None,
+    }
+}
 
 /// Decode `data` into one case of (prop, sub) and check it.
-pub fn one(prop: &str, sub: &str, data: &[u8], tier: Tier) -> Option<(serde_json::Value, Classes, Result<(), String>)> {
+pub fn one(prop: &str, sub: &str, data: &[u8], _tier: Tier) -> Option<(serde_json::Value, Classes, Result<(), String>)> {
+    let case = decode(prop, sub, data)?;
     for s in props::subs(prop) {
         if s.name() == sub {
-            return s.fuzz(data, tier);
+            return match s.classify_and_check(&case) {
+                Ok((cl, r)) => Some((case, cl, r)),
+                Err(_) => None,
+            };
         }
     }
     None
@@ -27,7 +383,6 @@ pub fn target(prop: &str, sub: &str, data: &[u8]) {
         let _ = std::fs::create_dir_all(&dir);
         let _ = std::fs::write(&path, serde_json::to_string_pretty(&doc).unwrap());
         eprintln!("FUZZ-VIOLATION property={} replay={}\n{}", prop, path, msg);
-        // restore the default hook so that libFuzzer sees an ordinary panic/abort
         let _ = std::panic::take_hook();
         panic!("oracle failed: {}", msg);
     }
